@@ -211,6 +211,14 @@ pub fn run(args: &[&str]) -> String {
               Some(format!("new-network-differs:{:?}", d.network_str()))
             } else if tag_bytes(d.tag_str()) != Some(b.clone()) {
               Some("new-tag-bytes-differ:".into())
+            } else if {
+              // the alias id spelled in upper-case hex denotes the same bytes
+              let up = format!("0x{}", b.iter().map(|x| format!("{:02X}", x)).collect::<String>());
+              let net = NetworkName::try_from(n.clone()).unwrap();
+              let a = IotaDID::from_alias_id(&up, &net);
+              a != d || a.to_string() != d.to_string() || oracle(&a).is_some()
+            } {
+              Some("iota-not-lowercase:from_alias_id with an upper-case alias id differs from new(bytes, network)".into())
             } else if d.is_placeholder() != b.iter().all(|x| *x == 0) {
               Some("iota-placeholder:is_placeholder disagrees with the bytes".into())
             } else {
@@ -264,6 +272,8 @@ pub fn run(args: &[&str]) -> String {
         Some(format!("iota-eq-not-network-and-tag:eq {} same {}", e, same))
       } else if e && (hash_of(&x) != hash_of(&y) || x.cmp(&y) != std::cmp::Ordering::Equal) {
         Some("iota-eq-ord-hash:".into())
+      } else if (x.cmp(&y) == std::cmp::Ordering::Equal) != e || x.partial_cmp(&y) != Some(x.cmp(&y)) || x.cmp(&y) != y.cmp(&x).reverse() || (x < y) != (x.cmp(&y) == std::cmp::Ordering::Less) {
+        Some(format!("iota-eq-ord-hash:Ord / PartialOrd disagree with Eq for {} and {} (cmp {:?})", x, y, x.cmp(&y)))
       } else {
         None
       };
